@@ -94,7 +94,29 @@ def prepare(project: Any, inttime: bool = True, tabulate: bool = True, scenario:
         tabulate_calendars(project, scenario, info)
     if inttime:
         switch_clock(project, scenario, base)
+    concretise_slot_indices(project)
     return info
+
+
+def concretise_slot_indices(project: Any) -> None:
+    """The value Project.dateToIdx returns is realised (one path per feasible SLOT, as the first scoreboard access would do anyway):
+    a slot index that stays symbolic makes every step of the slot walk a solver problem (measured: 1-2 s per scheduleSlot call,
+    path timeouts on a weekend walk).  The seconds inside the slot stay symbolic - only int(<symbolic float>) inside the real
+    method is prevented from enumerating them (sx.driver)."""
+    real = project.dateToIdx
+
+    def date_to_idx(date: Any, forceIntoProject: bool = True) -> Any:
+        idx = real(date, forceIntoProject)
+        # (under tracing type() reports proxies as int: ask outside tracing)
+        with notrace():
+            symbolic = type(idx) is not int
+        if symbolic:
+            from crosshair.core import realize
+
+            idx = realize(idx)
+        return idx
+
+    project.dateToIdx = date_to_idx
 
 
 def prepare_next_scenario(project: Any, sc: int, info: dict, inttime: bool = True, tabulate: bool = True) -> None:
